@@ -263,7 +263,7 @@ func (u *Unit) mergeStates(a, b *State) *State {
 					arr := u.fresh("arr.m", SInt)
 					m.assumeDef(Eq(arr, Ite(c, T{u.arrOf(ta), SInt}, T{u.arrOf(tb), SInt})))
 					u.sliceArr[tv.S] = arr.S
-					pendingPriv = append(pendingPriv, privRef{arr, "arr:" + k.elemSort(u)})
+					pendingPriv = append(pendingPriv, privRef{arr, "arr:" + k.elemSort(u), ""})
 				}
 			}
 		}
@@ -423,7 +423,7 @@ func (u *Unit) mergeStates(a, b *State) *State {
 	var priv []privRef
 	for _, p := range a.private {
 		for _, q := range b.private {
-			if p.ref.S == q.ref.S {
+			if p.ref.S == q.ref.S && p.heldIn == q.heldIn {
 				priv = append(priv, p)
 				break
 			}
